@@ -115,8 +115,11 @@ CHECKS["C02"] = dict(
         R("h_loop", "bound=2 poisons=1 seeds=0,1,19 nfd=2 ntm=0 ntk=0 nev=0 ops=leave,fdreg,fdtrybad,fdunreg,feed rules=fd-sleep,fd-starved,%s" % ABN),
     ],
     thorough=[
-        R("h_loop", "bound=3 seeds=%s nfd=2 ntm=0 ntk=1 nev=0 ops=%s rules=fd-sleep,fd-starved,%s" % (FD_SEEDS, FD_OPS, ABN), share=0.8),
+        # full alphabet at bound 2, then smaller alphabets sized so that bounds 3 and 4 run to completion
+        R("h_loop", "bound=2 seeds=%s nfd=3 ntm=0 ntk=1 nev=0 ops=%s rules=fd-sleep,fd-starved,%s" % (FD_SEEDS, FD_OPS, ABN)),
         R("h_loop", "bound=2 poisons=1 seeds=0,1,4,19 nfd=2 ntm=0 ntk=1 nev=0 ops=leave,fdreg,fdtry,fdtrybad,fdunreg,fdseth,feed rules=fd-sleep,fd-starved,%s" % ABN),
+        R("h_loop", "bound=3 seeds=1,3,4,15,28,29 nfd=2 ntm=0 ntk=0 nev=0 ops=leave,fdreg,fdunreg,fdseth,feed,pclose,drain rules=fd-sleep,fd-starved,%s" % ABN, share=0.7),
+        R("h_loop", "bound=4 seeds=1,5 nfd=1 ntm=0 ntk=0 nev=0 ops=leave,fdseth,feed,drain,fdunreg rules=fd-sleep,fd-starved,%s" % ABN),
     ],
     rule=CHECKS["C01"]["rule"],
     explanation="at every entry to the kernel wait the harness takes poll(2) ground truth for every registered descriptor: if a band has a "
@@ -130,7 +133,9 @@ CHECKS["C03"] = dict(
         R("h_loop", "bound=2 seeds=%s nfd=3 ntm=0 ntk=1 nev=0 ops=%s abn_ignore=1 nofree=1 rules=fd-spurious,fd-wrong-handler,fd-twice,fd-cleared-handler,stale-callback,cookie" % (FD_SEEDS, FD_OPS)),
     ],
     thorough=[
-        R("h_loop", "bound=3 seeds=%s nfd=2 ntm=0 ntk=1 nev=0 ops=%s abn_ignore=1 nofree=1 rules=fd-spurious,fd-wrong-handler,fd-twice,fd-cleared-handler,stale-callback,cookie" % (FD_SEEDS, FD_OPS)),
+        R("h_loop", "bound=2 seeds=%s nfd=3 ntm=0 ntk=1 nev=0 ops=%s abn_ignore=1 nofree=1 rules=fd-spurious,fd-wrong-handler,fd-twice,fd-cleared-handler,stale-callback,cookie" % (FD_SEEDS, FD_OPS)),
+        R("h_loop", "bound=3 seeds=1,3,4,15,28,29 nfd=2 ntm=0 ntk=0 nev=0 ops=leave,fdreg,fdunreg,fdseth,feed,pclose,drain abn_ignore=1 nofree=1 rules=fd-spurious,fd-wrong-handler,fd-twice,fd-cleared-handler,stale-callback,cookie", share=0.7),
+        R("h_loop", "bound=4 seeds=1,5 nfd=1 ntm=0 ntk=0 nev=0 ops=leave,fdseth,feed,drain,fdunreg abn_ignore=1 nofree=1 rules=fd-spurious,fd-wrong-handler,fd-twice,fd-cleared-handler,stale-callback,cookie"),
     ],
     rule=CHECKS["C01"]["rule"],
     explanation="the wait wrapper records exactly which events the kernel returned; on handler entry the band must be allowed by them, the "
@@ -150,7 +155,11 @@ CHECKS["C04"] = dict(
         R("h_loop", "bound=2 seeds=25 nfd=0 ntm=7 ntk=0 nev=0 horizon=12 ops=leave,tmunreg,tmreg rules=timer-early,timer-twice,oversleep,stale-callback,oneshot-registered,%s" % ABN),
     ],
     thorough=[
-        R("h_loop", "bound=3 seeds=%s nfd=1 ntm=3 ntk=1 nev=0 horizon=14 ops=%s rules=timer-early,timer-twice,oversleep,stale-callback,oneshot-registered,%s" % (TM_SEEDS, TM_OPS, ABN)),
+        R("h_loop", "bound=2 seeds=%s nfd=1 ntm=3 ntk=1 nev=0 horizon=14 ops=%s rules=timer-early,timer-twice,oversleep,stale-callback,oneshot-registered,%s" % (TM_SEEDS, TM_OPS, ABN)),
+        R("h_loop", "bound=2 seeds=7,13,8 nfd=1 ntm=3 ntk=0 nev=0 eintr_wait=1 ops=leave,tmreg,tmunreg rules=timer-early,timer-twice,oversleep,%s" % ABN),
+        R("h_loop", "bound=2 seeds=25 nfd=0 ntm=7 ntk=0 nev=0 horizon=12 ops=leave,tmunreg,tmreg rules=timer-early,timer-twice,oversleep,stale-callback,oneshot-registered,%s" % ABN),
+        R("h_loop", "bound=3 seeds=7,8,16,17 nfd=1 ntm=2 ntk=0 nev=0 horizon=14 ops=leave,tmreg,tmunreg,feed rules=timer-early,timer-twice,oversleep,stale-callback,oneshot-registered,%s" % ABN, share=0.8),
+        R("h_loop", "bound=4 seeds=0,13 nfd=1 ntm=1 ntk=0 nev=0 horizon=12 ops=leave,tmreg,tmunreg,feed rules=timer-early,timer-twice,oversleep,%s" % ABN),
     ],
     rule=CHECKS["C01"]["rule"],
     explanation="virtual clock; on handler entry the clock must be at or past the expiry and the registration must not have fired before; at "
@@ -170,7 +179,11 @@ CHECKS["C06"] = dict(
         R("h_loop", "bound=2 drift_ns=1000000 autotask=30 seeds=27,6,9 nfd=1 ntm=1 ntk=2 nev=0 horizon=40 ops=leave,tkreg,fdreg,feed,tmreg rules=timer-starved,fd-starved,task-same-round,%s" % ABN),
     ],
     thorough=[
-        R("h_loop", "bound=4 seeds=9,6,10,0,1,21 nfd=1 ntm=1 ntk=3 nev=1 nwk=1 ops=%s rules=sleep-with-task,task-same-round,oneshot-registered,stale-callback,fd-starved,work-,%s" % (TK_OPS, ABN)),
+        R("h_loop", "bound=3 seeds=9,6,10,0,1,21 nfd=1 ntm=1 ntk=3 nev=1 nwk=1 ops=%s rules=sleep-with-task,task-same-round,oneshot-registered,stale-callback,fd-starved,work-,%s" % (TK_OPS, ABN)),
+        R("h_loop", "bound=3 tkkeep=1 seeds=9,6,10 nfd=1 ntm=0 ntk=3 nev=0 ops=leave,tkreg,tkunreg,feed rules=sleep-with-task,task-same-round,oneshot-registered,stale-callback,fd-starved,%s" % ABN),
+        R("h_loop", "bound=3 drift_ns=1000000 autotask=30 seeds=27,6,9 nfd=1 ntm=1 ntk=2 nev=0 horizon=40 ops=leave,tkreg,fdreg,feed,tmreg rules=timer-starved,fd-starved,task-same-round,%s" % ABN, share=0.4),
+        R("h_loop", "bound=5 seeds=9,0 nfd=0 ntm=0 ntk=3 nev=0 ops=leave,tkreg,tkunreg rules=sleep-with-task,task-same-round,oneshot-registered,stale-callback,%s" % ABN, share=0.6),
+        R("h_loop", "bound=5 tkkeep=1 seeds=9,0 nfd=0 ntm=0 ntk=2 nev=0 ops=leave,tkreg,tkunreg rules=sleep-with-task,task-same-round,oneshot-registered,stale-callback,%s" % ABN),
     ],
     rule=CHECKS["C01"]["rule"],
     explanation="each task registration may run once (generation cookie), is unregistered on entry, must have run before the loop blocks, and "
@@ -186,7 +199,10 @@ CHECKS["C07"] = dict(
         R("h_loop", "bound=2 seeds=16,17,18 nfd=1 ntm=3 ntk=1 nev=0 horizon=14 ops=leave,tmreg,tmunreg,tkreg,feed rules=%s" % C07_RULES),
     ],
     thorough=[
-        R("h_loop", "bound=3 seeds=0,1,6,10,11,12,20,21,23 nfd=2 ntm=1 ntk=1 nev=2 nraw=1 nsig=1 nwk=1 emfile=1 acts=2 rules=%s" % C07_RULES),
+        R("h_loop", "bound=2 seeds=0,1,6,10,11,12,20,21,23 nfd=2 ntm=1 ntk=1 nev=2 nraw=1 nsig=1 nwk=1 emfile=1 rules=%s" % C07_RULES),
+        R("h_loop", "bound=2 seeds=16,17,18 nfd=1 ntm=3 ntk=1 nev=0 horizon=14 ops=leave,tmreg,tmunreg,tkreg,feed rules=%s" % C07_RULES),
+        R("h_loop", "bound=3 seeds=0,10,12,21 nfd=1 ntm=1 ntk=1 nev=1 nraw=1 nsig=1 nwk=1 emfile=1 ops=leave,quit,fdreg,fdunreg,tmreg,tkreg,evreg,evunreg,evpost,evregfail,rawreg,rawunreg,sigreg,sigunreg,raise,wksubmit,fdtrybad rules=%s" % C07_RULES, share=0.8),
+        R("h_loop", "bound=4 seeds=0 nfd=1 ntm=0 ntk=1 nev=1 emfile=1 ops=leave,quit,fdreg,fdunreg,tkreg,evreg,evunreg,evpost,evregfail,fdtrybad rules=%s" % C07_RULES),
     ],
     rule=CHECKS["C01"]["rule"],
     explanation="reference count of user-visible registered objects: at every kernel wait the set must be non-empty and iv_quit not pending; "
@@ -246,7 +262,10 @@ MT_ASSUME = [
 ]
 CHECKS["C08"] = dict(
     quick=[R("h_event_mt", "bound=2 transports=0-3 hacts=1 p1=0,1,3,4,5 p2=0,1,3", sched=True)],
-    thorough=[R("h_event_mt", "bound=3 transports=0-4 hacts=2", sched=True)],
+    thorough=[R("h_event_mt", "bound=2 transports=0-4 hacts=2", sched=True, share=0.3),
+              R("h_event_mt", "bound=3 transports=0-3 p1=0,1,3,4 p2=0,1,3 hacts=1", sched=True, share=0.6),
+              R("h_event_mt", "bound=4 transports=0,2 p1=0,3 p2=0,1 hacts=0", sched=True, share=0.5),
+              R("h_event_mt", "bound=6 transports=0,2 p1=0,1 p2=0 hacts=0", sched=True)],
     rule="4-5 wake-up transports (epoll one-shot kick under epoll-timerfd and epoll; raw event over eventfd and over a pipe under ppoll/poll) x "
          "6 programs for poster 1 x 4 for poster 2 (posts to E0/E1 in sequences of 1-2, feeding the owner's descriptor before/after a post) "
          "x owner handler actions (post other, post self, register+post E2, unregister E2) x every schedule within the bound",
@@ -272,13 +291,14 @@ CHECKS["C14"] = dict(
            R("h_loops_mt", "bound=2 scan_stderr=1", variant="tsan", sched=True),
            R("h_wait", "bound=1 steps=1 scan_stderr=1", variant="tsan", sched=True),
            R("h_signal", "bound=1 steps=2 scan_stderr=1", variant="tsan", sched=True)],
-    thorough=[R("h_event_mt", "bound=2 transports=0-4 hacts=1 scan_stderr=1", variant="tsan", sched=True),
-              R("h_raw", "bound=4 scan_stderr=1", variant="tsan", sched=True),
-              R("h_work", "bound=2 methods=0,2 maxthreads=2 scan_stderr=1", variant="tsan", sched=True),
-              R("h_thread", "bound=4 scan_stderr=1", variant="tsan", sched=True),
-              R("h_loops_mt", "bound=4 cycles=2 scan_stderr=1", variant="tsan", sched=True),
-              R("h_wait", "bound=1 steps=6 scan_stderr=1", variant="tsan", sched=True),
-              R("h_signal", "bound=2 steps=3 scan_stderr=1", variant="tsan", sched=True)],
+    thorough=[R("h_event_mt", "bound=2 transports=0-3 hacts=1 p1=0,1,3,4 p2=0,1,3 scan_stderr=1", variant="tsan", sched=True, share=0.25),
+              R("h_raw", "bound=4 scan_stderr=1", variant="tsan", sched=True, share=0.1),
+              R("h_work", "bound=1 methods=0,2 scan_stderr=1", variant="tsan", sched=True, share=0.15),
+              R("h_work", "bound=2 methods=0 maxthreads=2 progs=1,4,8 puts=0,3 scan_stderr=1", variant="tsan", sched=True, share=0.4),
+              R("h_thread", "bound=4 scan_stderr=1", variant="tsan", sched=True, share=0.2),
+              R("h_loops_mt", "bound=3 cycles=2 scan_stderr=1", variant="tsan", sched=True, share=0.4),
+              R("h_wait", "bound=1 steps=3 scan_stderr=1", variant="tsan", sched=True, share=0.5),
+              R("h_signal", "bound=2 steps=2 scan_stderr=1", variant="tsan", sched=True)],
     rule="the multi-threaded scenario programs of C08-C13 under every schedule within the preemption bound, library built with "
          "-fsanitize=thread; an execution is one schedule; distinct = distinct observation traces",
     explanation="exhaustive schedule enumeration supplies the schedules in which conflicting accesses actually execute; on each one the "
@@ -334,7 +354,11 @@ CHECKS["C13"] = dict(
 
 CHECKS["C10"] = dict(
     quick=[R("h_signal", "bound=2 steps=3 hacts=1", sched=True)],
-    thorough=[R("h_signal", "bound=3 steps=4 hacts=2 methods=1", sched=True)],
+    thorough=[R("h_signal", "bound=2 steps=4 hacts=2", sched=True, share=0.25),
+              R("h_signal", "bound=3 steps=3 hacts=1 cfgs=0-6", sched=True, share=0.4),
+              R("h_signal", "bound=3 steps=2 hacts=1 cfgs=7-13", sched=True, share=0.5),
+              R("h_signal", "bound=4 steps=2 hacts=1 cfgs=1,2,5", sched=True, share=0.6),
+              R("h_signal", "bound=2 steps=2 hacts=1 methods=1 cfgs=0-9", sched=True)],
     rule="14 interest configurations (1-3 interests for one signal, plus one USR1 + three USR2 interests in all 24 registration orders: shared / exclusive / this-thread / this-thread+exclusive, spread over two "
          "loop threads, optionally one of them registered later) x driver programs of up to 3-4 steps (deliver to loop 0 / loop 1 / a thread "
          "without a loop, register, unregister, a forked child raising the signal) x handler actions (signal arrives again during the handler, "
@@ -355,7 +379,9 @@ WAIT_ASSUME = MT_ASSUME + ["fork/wait4/kill of the library are served from a sim
                            "SIGCHLD is raised by the receiving thread on itself; the receiving thread is a program choice"]
 CHECKS["C11"] = dict(
     quick=[R("h_wait", "bound=1 steps=6", sched=True), R("h_wait", "bound=2 steps=1", sched=True)],
-    thorough=[R("h_wait", "bound=2 steps=6", sched=True)],
+    thorough=[R("h_wait", "bound=2 steps=6", sched=True, share=0.7),
+              R("h_wait", "bound=3 steps=2 pops=1,2,6", sched=True, share=0.7),
+              R("h_wait", "bound=2 steps=3 method=2", sched=True)],
     rule="7 child populations (spawned through the library by loop 0 / loop 1, plain children without interest, interest registered by pid) x "
          "first child exiting before fork() returns with its SIGCHLD going to loop 0 / loop 1 / a thread without a loop x driver programs of up "
          "to 6 steps (stop, continue, exit, killed - with or without a SIGCHLD, SIGCHLD to any of the three threads, unregister, kill helper) x "
